@@ -137,6 +137,10 @@ def drive_b(rec, part, count):
             nrows, ncols = rng.choice([8, 9, 12, 15, 16, 17]), rng.choice([1, 3, 7, 8, 9, 16, 17])
             a_size, rs = rng.choice([nrows - 1, nrows, nrows + 1, nrows + 5]), rng.choice([ncols - 1, ncols, ncols + 1, ncols + 4])
             n = rng.choice([2, 8, 16])
+        if it % 12 == 11:                    # many rows (the documented range goes to 200), few columns
+            nrows, ncols = rng.choice([65, 66, 70, 128, 129, 200]), rng.choice([1, 2, 3])
+            a_size, rs = rng.choice([nrows, nrows, nrows - 1, nrows + 1]), rng.choice([ncols, ncols, ncols + 1])
+            n = rng.choice([8, 16])
         mask = rng.choice([MASK_NONE, MASK_GENERIC])
         if (n, mask) not in mods:
             mods[(n, mask)] = L.module(n, FFT64, mask)
